@@ -8,7 +8,6 @@ use crate::spec::{components_stream, PropertySpec};
 use serde_json::json;
 use servlin::internal::{copy_chunked_async, CopyResult};
 use sim_core::tape::content;
-use std::io::ErrorKind;
 
 pub const MAX_PIECE: usize = 65528;
 
@@ -173,7 +172,7 @@ fn reader_error(cfg: &RunCfg) -> Outcome {
     let src = content(gen::seed32(), total);
     let mut r = ScriptReader::new(src.clone(), Pieces::List(lens.clone()));
     r.end_at = cut;
-    r.end = StreamEnd::Error(gen::pick(&[ErrorKind::ConnectionReset, ErrorKind::Other, ErrorKind::UnexpectedEof, ErrorKind::Interrupted]));
+    r.end = StreamEnd::Error(gen::read_error_kind());
     r.pending_64 = gen::pick(&[0u32, 8]);
     // the error may be one-shot: a source that fails once and then reports end of data, or
     // goes on with the rest (an event receiver that rejects one oversized event does that);
@@ -244,7 +243,7 @@ fn writer_error(cfg: &RunCfg) -> Outcome {
     .min(full.len());
     let mut r = ScriptReader::new(src, Pieces::List(lens.clone()));
     let mut w = writer_sched();
-    w.fail_at = Some((at, gen::pick(&[ErrorKind::BrokenPipe, ErrorKind::ConnectionReset, ErrorKind::WriteZero])));
+    w.fail_at = Some((at, gen::write_error_kind()));
     let res = match run_encoder(&mut r, &mut w, 10_000_000) {
         Ok(r) => r,
         Err(o) => return o,
